@@ -21,6 +21,9 @@ canonical spelling, so a rule sees the same tree whichever one the author chose:
   D11 x.dim() / x.ndim / x.ndimension()  -> len(x.shape) ; x.mT -> x.transpose(-1, -2)
   D13 divmod(a, b)[0] / [1]              -> a // b / a % b
   D14 [a, b][k]                          -> the k-th element (literal sequence, constant k)
+  D16 x.reshape((a, b)) -> x.reshape(a, b) (view / expand / repeat / permute / tile alike); D17 X[a:b][k] -> X[a + k]
+  D18 aliases of torch sub-modules (`nn`, `F`) -> `torch.nn`, `torch.nn.functional`; D19 `x.add_(y)` as a statement -> `x += y` (sub_/mul_/div_ alike)
+  D15 [*xs]                              -> list(xs)
   D12 X.m(a, q=b) -> X.m(a, b) when q is the next positional parameter of every definition of method m in the package
 
 Only spelling is touched: every rewrite is an identity of the PyTorch / Python
@@ -91,10 +94,42 @@ def _is_const(n: ast.AST, v) -> bool:
     return isinstance(n, ast.Constant) and type(n.value) in (int, float) and n.value == v
 
 
+INPLACE_METHODS = {"add_": ast.Add, "sub_": ast.Sub, "mul_": ast.Mult, "div_": ast.Div}
+
+
 class Canon(ast.NodeTransformer):
-    def __init__(self, module_names: Set[str]):
+    def __init__(self, module_names: Set[str], aliases=None):
         self.modules = set(module_names) | NON_TENSOR_ROOTS
+        self.aliases = aliases or {}  # local name -> dotted torch module it stands for (nn -> torch.nn, F -> torch.nn.functional)
         self.count = 0
+
+    def visit_Expr(self, node: ast.Expr):
+        self.generic_visit(node)
+        # D19 x.add_(y) as a statement -> x += y (sub_, mul_, div_ alike; no alpha / rounding_mode)
+        c = node.value
+        if isinstance(c, ast.Call) and isinstance(c.func, ast.Attribute) and c.func.attr in INPLACE_METHODS and len(c.args) == 1 and not c.keywords \
+                and isinstance(c.func.value, (ast.Name, ast.Attribute, ast.Subscript)) and not isinstance(c.args[0], ast.Starred):
+            import copy as _copy
+            tgt = _copy.deepcopy(c.func.value)
+            for n in ast.walk(tgt):
+                if hasattr(n, "ctx"):
+                    n.ctx = ast.Load()
+            tgt.ctx = ast.Store()
+            self.count += 1
+            return ast.copy_location(ast.AugAssign(target=tgt, op=INPLACE_METHODS[c.func.attr](), value=c.args[0]), node)
+        return node
+
+    def visit_Name(self, node: ast.Name):
+        # D18 aliases of torch sub-modules -> the dotted name
+        if isinstance(node.ctx, ast.Load) and node.id in self.aliases:
+            parts = self.aliases[node.id].split(".")
+            new = ast.Name(id=parts[0], ctx=ast.Load())
+            for a in parts[1:]:
+                new = ast.Attribute(value=new, attr=a, ctx=ast.Load())
+                ast.copy_location(new, node)
+            self.count += 1
+            return ast.copy_location(new, node)
+        return node
 
     def _hit(self, new, old):
         self.count += 1
@@ -169,6 +204,11 @@ class Canon(ast.NodeTransformer):
                             kws.append(ast.keyword(arg=a, value=ast.copy_location(ast.Attribute(value=copy.deepcopy(f.value), attr=a, ctx=ast.Load()), node)))
                     new = ast.Call(func=_torch_attr(NEW_CTORS[m], node), args=node.args, keywords=kws)
                     return self._hit(new, node)
+        # D16 x.reshape((a, b)) -> x.reshape(a, b) (also view / expand / repeat / permute / tile)
+        if isinstance(f, ast.Attribute) and f.attr in ("reshape", "view", "expand", "repeat", "permute", "tile") and len(node.args) == 1 and isinstance(node.args[0], (ast.Tuple, ast.List)) \
+                and not node.keywords and node.args[0].elts:
+            node.args = list(node.args[0].elts)
+            self.count += 1
         # D9 dict(m) -> {**m}; dict(m, **n) -> {**m, **n}; dict(a=x) -> {'a': x}
         if isinstance(f, ast.Name) and f.id == "dict" and len(node.args) <= 1 and not any(isinstance(a, ast.Starred) for a in node.args) and (node.args or node.keywords):
             if not (node.args and isinstance(node.args[0], (ast.List, ast.Tuple, ast.ListComp, ast.GeneratorExp))) and not (node.args and isinstance(node.args[0], ast.Call) and attr_chain_(node.args[0].func) == "zip"):
@@ -216,6 +256,13 @@ class Canon(ast.NodeTransformer):
             return self._hit(new, node)
         return node
 
+    def visit_List(self, node: ast.List):
+        self.generic_visit(node)
+        # D15 [*xs] -> list(xs)
+        if isinstance(node.ctx, ast.Load) and len(node.elts) == 1 and isinstance(node.elts[0], ast.Starred):
+            return self._hit(ast.Call(func=ast.copy_location(ast.Name(id="list", ctx=ast.Load()), node), args=[node.elts[0].value], keywords=[]), node)
+        return node
+
     def visit_BinOp(self, node: ast.BinOp):
         self.generic_visit(node)
         if isinstance(node.op, ast.MatMult):
@@ -233,6 +280,14 @@ class Canon(ast.NodeTransformer):
                 and isinstance(sl, ast.Constant) and sl.value in (0, 1):
             a, b = node.value.args
             return self._hit(ast.BinOp(left=a, op=ast.FloorDiv() if sl.value == 0 else ast.Mod(), right=b), node)
+        # D17 X[a:b][k] -> X[a + k] (constant non-negative a, k; no step)
+        if isinstance(sl, ast.Constant) and isinstance(sl.value, int) and not isinstance(sl.value, bool) and sl.value >= 0 and isinstance(node.value, ast.Subscript) \
+                and isinstance(node.value.slice, ast.Slice) and node.value.slice.step is None and isinstance(node.ctx, ast.Load):
+            lo = node.value.slice.lower
+            if lo is None or (isinstance(lo, ast.Constant) and isinstance(lo.value, int) and lo.value >= 0):
+                base = (lo.value if lo is not None else 0) + sl.value
+                new = ast.Subscript(value=node.value.value, slice=ast.copy_location(ast.Constant(value=base), node), ctx=ast.Load())
+                return self._hit(new, node)
         # D14 [a, b][0] -> a (constant index into a literal sequence without starred elements)
         if isinstance(node.value, (ast.List, ast.Tuple)) and isinstance(sl, ast.Constant) and isinstance(sl.value, int) and not isinstance(sl.value, bool) \
                 and not any(isinstance(x, ast.Starred) for x in node.value.elts) and -len(node.value.elts) <= sl.value < len(node.value.elts):
@@ -264,11 +319,21 @@ class Canon(ast.NodeTransformer):
 def canonicalise(tree: ast.Module) -> int:
     """in place; returns the number of rewrites"""
     mods = set()
+    aliases = {}
     for n in ast.walk(tree):
         if isinstance(n, ast.Import):
             for al in n.names:
                 mods.add((al.asname or al.name).split(".")[0])
-    c = Canon(mods)
+                if al.asname and al.name.startswith("torch.") and al.asname != al.name:
+                    aliases[al.asname] = al.name  # import torch.nn as nn
+        elif isinstance(n, ast.ImportFrom) and n.level == 0 and n.module and (n.module == "torch" or n.module.startswith("torch.")):
+            for al in n.names:
+                if al.name in ("nn", "functional", "fft", "linalg", "distributions", "autograd", "optim") and al.name != "*":
+                    aliases[al.asname or al.name] = f"{n.module}.{al.name}"  # from torch import nn
+    # a local / parameter of the same name would shadow the alias: leave such modules alone
+    stored = {x.id for x in ast.walk(tree) if isinstance(x, ast.Name) and isinstance(x.ctx, ast.Store)} | {a.arg for x in ast.walk(tree) if isinstance(x, ast.arguments) for a in x.args + x.kwonlyargs}
+    aliases = {k: v for k, v in aliases.items() if k not in stored}
+    c = Canon(mods, aliases)
     c.visit(tree)
     ast.fix_missing_locations(tree)
     return c.count
